@@ -11,7 +11,8 @@ namespace detail
 	{
 		GLM_FUNC_QUALIFIER GLM_CONSTEXPR static genFIType call(genFIType x)
 		{
-			return -x;
+			// 0 - x, not -x: the negation of a floating-point zero of either sign is +0.0 here (used by abs)
+			return genFIType(0) - x;
 		}
 	};
 
@@ -38,7 +39,8 @@ namespace detail
 				std::numeric_limits<genFIType>::is_iec559 || GLM_CONFIG_UNRESTRICTED_FLOAT || std::numeric_limits<genFIType>::is_signed,
 				"'abs' only accept floating-point and integer scalar or vector inputs");
 
-			return x >= genFIType(0) ? x : compute_negate<genFIType, std::numeric_limits<genFIType>::is_integer>::call(x);
+			// > instead of >=: abs(-0.0) is +0.0, as with fabs and in the SIMD path (x >= 0 ? x : -x returned -0.0 for -0.0)
+			return x > genFIType(0) ? x : compute_negate<genFIType, std::numeric_limits<genFIType>::is_integer>::call(x);
 			// TODO, perf comp with: *(((int *) &x) + 1) &= 0x7fffffff;
 		}
 	};
